@@ -53,9 +53,9 @@ def scenario_dir(rng, base):
         Z.db_reindex(base)
     ops = [["addnote", 1], ["editnote", 2, 0], ["newpage", 4, 2], ["addnote", 3], ["editnote", 1, 0]]
     rng.shuffle(ops)
-    applied = ops[:rng.randint(3, 5)] + [["editnote", 5, rng.randint(0, 1)]]
-    if ["editnote", 2, 0] not in applied:
-        applied.append(["editnote", 2, 0])      # every run visits the partial-removal window of the page with properties
+    # every kind of pending work in every scenario (new notes on two pages, edited notes on two pages, a new page, an
+    # edited note on the page without rows of its own); only the order varies
+    applied = ops + [["editnote", 5, rng.randint(0, 1)]]
     for op in applied:
         c06.apply_real(base, op, serial, None)
     return ops, applied
